@@ -215,7 +215,10 @@ FlagStep(r) ==
              ELSE Goto(r, "free", loc[r])
         ELSE IF f # 0 /\ \E am \in early[p] : TW!SameRemote(m, am)   \* check_early_anti_messages
              THEN Goto(r, "ematch", loc[r])
+        \* (msg_is_before compares the cancellation flags first: against a last entry that its sender cancelled in place at the same timestamp
+        \* the new event is NOT a straggler; it is executed after it and undone together with it when the anti-message copy arrives)
         ELSE IF hist[p] # <<>> /\ Before(EvOf(m), [t |-> LastE(p).t, ty |-> LastE(p).ty, pid |-> LastE(p).pid])
+                /\ ~(msg[m].t = LastE(p).t /\ TW!HasAnti(msg[LastE(p).m].flags))
              THEN Goto(r, "rbbegin", [loc[r] EXCEPT !.past = MatchStraggler(p, m), !.after = "exec", !.t = msg[m].t])
              ELSE Goto(r, "exec", loc[r])
   /\ UNCHANGED <<lpst, snap, crem, fneed, rseq>>
